@@ -509,7 +509,20 @@ func checkInitialFlight(w *World, n *Nodes, sc *DialScenario, di int, cp *dialCa
 			maxSize = sc.Cfg.InitialPktSize[0]
 		}
 		if rec.Size > max(maxSize, n.Spec.UDPDatagramMinSize) {
-			report("C10", "Initial datagram exceeds the connection's maximum packet size", "dial #%d pkt %d: %d bytes > %d (%s)", di, i, rec.Size, maxSize, sc.Cfg.Client)
+			// (the signature names the family, so that one family that is a known finding cannot hide another)
+			fam := "other"
+			d := sc.Cfg.Derive
+			longer := d != nil && (strings.HasPrefix(d.Token, "len:") || strings.HasPrefix(d.Token, "prefix:") || d.DstCIDLen > 8 || d.SrcCIDLen > 0)
+			severalDatagrams := strings.HasPrefix(sc.Cfg.Client, "chrome146") || (d != nil && d.PadCH > 0)
+			switch {
+			case severalDatagrams && (d == nil || d.Builder != "nil"):
+				fam = "ClientHello spanning several datagrams: the frame builder adds to a datagram the packer has already filled"
+			case longer:
+				fam = "fixed total frame length plus a header longer than the built-in one: token or connection IDs"
+			case d != nil:
+				fam = "derived spec, builder " + d.Builder
+			}
+			report("C10", "Initial datagram exceeds the connection's maximum packet size ("+fam+")", "dial #%d pkt %d: %d bytes > %d (%s)", di, i, rec.Size, maxSize, sc.Cfg.Client)
 		}
 		// builder bounds
 		if rf, ok := ips.FrameBuilder.(*quic.QUICRandomFrames); ok && !retried {
@@ -553,7 +566,11 @@ func checkInitialFlight(w *World, n *Nodes, sc *DialScenario, di int, cp *dialCa
 				report("C10", "CRYPTO byte count of an Initial datagram differs from the per-datagram plan", "dial #%d datagram %d: %d bytes, plan %d", di, i, nbytes, plan.CryptoLength)
 			}
 			next += nbytes
-			if plan.PacketSize > 0 && p.Size != plan.PacketSize {
+			if plan.PacketSize > 0 && plan.CryptoLength == 0 && p.Size > plan.PacketSize {
+				// "all remaining CRYPTO" does not fit the exact size: the plan does not leave room (documented as the
+				// caller's duty), nothing to demand
+				res.Probe("plan-without-room")
+			} else if plan.PacketSize > 0 && p.Size != plan.PacketSize {
 				report("C10", "Initial packet size differs from the exact size of the per-datagram plan", "dial #%d datagram %d: %d bytes, plan %d", di, i, p.Size, plan.PacketSize)
 			}
 		}
